@@ -133,6 +133,9 @@ class SymbolCounter:
 
     def previsit(self, node):
         if node.defines_local:
+            # The name is not bound yet in the expression that produces its
+            # value: a free use there refers to an outer binding.
+            visit(node.expr, self.previsit, self.postvisit)
             self._counts[node.name] += 1
 
         if node.has_params and node.params:
